@@ -29,7 +29,9 @@ pub struct SemCfg {
     pub assignments: bool,
 }
 
-pub const VAR_NAMES: [&str; 4] = ["v0", "v1", "v2", "v3"];
+/// the first four are bound by gen_context; the others differ from them only by case, contain the
+/// `.` the tokenizer allows inside names, or start with a multi-byte character
+pub const VAR_NAMES: [&str; 7] = ["v0", "v1", "v2", "v3", "V0", "v0.1", "é1"];
 pub const FUNC_NAMES: [&str; 4] = ["t0", "t1", "t2", "t3"];
 /// never bound by the generators; two of them coincide with globally registered functions
 pub const UNBOUND: [&str; 4] = ["u0", "u1", "sum", "vh_g0"];
@@ -67,7 +69,10 @@ pub const EDGE_NUMS: [&str; 28] = [
     "0.0",
     "100",
 ];
-pub const STRS: [&str; 12] = ["", "a", "ab", "abc", "b", "é", "日本", "aé", "x y", "2", "0.5", "-3"];
+// prefix / suffix related pairs on purpose, with 2-, 3- and 4-byte characters on both sides of the cut
+pub const STRS: [&str; 26] = [
+    "", "a", "ab", "abc", "b", "é", "日本", "aé", "x y", "2", "0.5", "-3", "日", "本", "éa", "aéb", "éé", "😀", "😀a", "a😀", "日本語", "bc", "A", " a", "a ", "e\u{301}",
+];
 
 #[derive(Clone, Debug, Default)]
 pub struct SemCtx {
@@ -137,7 +142,7 @@ pub fn gen_value(src: &mut Src, cfg: &SemCfg, ty: Ty, depth: usize) -> V {
 pub fn gen_context(src: &mut Src, cfg: &SemCfg) -> SemCtx {
     let mut c = SemCtx::default();
     let nv = src.pick(5);
-    for i in 0..nv.min(VAR_NAMES.len()) {
+    for i in 0..nv.min(4) {
         let v = gen_value(src, cfg, Ty::Any, 0);
         c.bindings.insert(VAR_NAMES[i].to_string(), Binding::Var(v));
     }
